@@ -307,6 +307,7 @@ type loopFrame struct {
 	located map[string][]*Term // key -> refs that may be written (nil entry => whole map)
 	whole   map[string]bool
 	name    string
+	ghostHead map[string]Val // ghost variables at the loop head (after the declared ones were havocked)
 }
 
 func newState() *State {
